@@ -266,7 +266,7 @@ def make_objective(b: Built, o, p):
     return obj
 
 
-def build(p, quiet=True, roundtrip=False, early_solver=None, two_phase=False, interleave=False) -> Built:
+def build(p, quiet=True, roundtrip=False, early_solver=None, two_phase=False, interleave=False, resolve=False) -> Built:
     """roundtrip=True: every task and plain worker is first created in a scratch problem, dumped with
     to_json() and re-created in the real problem with SchedulingProblem.add_from_json().
 
@@ -276,6 +276,8 @@ def build(p, quiet=True, roundtrip=False, early_solver=None, two_phase=False, in
     two_phase=True: the model is declared without the requirements / buffer accesses of the last task that has
         some, and without constraints, indicators and objectives; a first solver solves that part; the rest is
         declared afterwards (the caller then creates a NEW solver);
+    resolve=True: the complete model is first solved by a solver of its own (thrown away); the caller then creates
+        a NEW solver on the same problem;
     interleave=True: right after the first requirement on each plain worker, a resource constraint that cannot
         bind anything (ResourceUnavailable / WorkLoad beyond the horizon) is declared on it, before the other
         requirements."""
@@ -402,6 +404,12 @@ def build(p, quiet=True, roundtrip=False, early_solver=None, two_phase=False, in
         b.cons.append(make_constraint(b, c))
     for o in p["objs"]:
         b.objs.append(make_objective(b, o, p))
+    if resolve:
+        with silence():
+            try:
+                ps.SchedulingSolver(problem=b.problem).solve()
+            except Exception:  # what the first solver answers is not judged here
+                pass
     return b
 
 
